@@ -102,7 +102,35 @@ def check(case):
     return True, ""
 
 
+def taylor_cases(tier, seed):
+    for n in range(0, 9 if tier == "quick" else 13):
+        for m in (1, 2, 3):
+            yield {"n": n, "m": m}
+
+
+def taylor_check(case):
+    """expand_S_taylor: coefficients of the binomial series of (1 + x)^(-1/2)
+    and the compositions of the order into k parts >= min_order"""
+    from fractions import Fraction
+    from runtime.c02 import compositions
+    n, m = case["n"], case["m"]
+    res = isr("pp", False).expand_S_taylor(n, m)
+    if n < m:
+        return res == [(1, [(n,)])], f"{res}"
+    exp = []
+    coeff = Fraction(1)
+    for k in range(1, n // m + 1):
+        coeff = coeff * (Fraction(-1, 2) - (k - 1)) / k        # binomial(-1/2, k)
+        exp.append((coeff, compositions(n, k, m)))
+    got = [(Fraction(int(p.p), int(p.q)) if hasattr(p, "p") else Fraction(p), list(o)) for p, o in res]
+    return got == exp, f"expand_S_taylor({n}, {m}) = {res}, binomial series {exp}"
+
+
 CHECKS = {
+    "expand_S_taylor.binomial_series": {
+        "function": "adcgen.intermediate_states:IntermediateStates.expand_S_taylor",
+        "cases": taylor_cases, "check": taylor_check,
+        "bound": "order < 9 (13), min_order 1..3: [(binomial(-1/2, k), compositions(n, k, m))]"},
     "overlap_isr.orthonormal": {
         "function": "adcgen.intermediate_states:IntermediateStates.precursor",
         "cases": cases, "check": check,
